@@ -9,6 +9,9 @@ Open Scope Z_scope.
 Lemma generated_names : fft_funcs = the_fourteen /\ fft_target_is_same_name = true /\
   fft_guard_raises_attribute_error = true /\ fft_has_dask_branch = true.
 Proof. repeat split; reflexivity. Qed.
+(* both the NumPy and the Dask branch of the wrapper hand every positional and keyword argument to the transform unchanged (pinned syntax) *)
+Lemma generated_pass_through : fft_passes_arguments_through = true.
+Proof. reflexivity. Qed.
 Theorem dispatch_spec name : (In name the_fourteen -> dispatch name = Some name) /\ (~ In name the_fourteen -> dispatch name = None).
 Proof.
   unfold dispatch. destruct generated_names as (E & S & _). rewrite E, S. split; intros H.
